@@ -109,6 +109,9 @@ func encodeH1Response(o *h1out, e *Exchange) {
 	if proto == "" {
 		proto = "1.1"
 	}
+	for _, st := range e.Interim {
+		fmt.Fprintf(&o.buf, "HTTP/%s %d Interim\r\nX-Interim: %d\r\n\r\n", proto, st, st)
+	}
 	fmt.Fprintf(&o.buf, "HTTP/%s %d %s\r\n", proto, e.Status, e.Reason)
 	body := unb64(e.RespBody)
 	o.headers(e.RespHeaders, e.RespFraming, e.RespFramePos, len(body))
@@ -207,7 +210,9 @@ func encodeH2Half(o *h1out, ops []FrameOp) {
 			}
 			must(fr.WriteDataPadded(op.Sid, op.End, pieces(op.Data), pad))
 		case "settings":
-			if op.Hts != nil {
+			if op.Empty {
+				must(fr.WriteSettings())
+			} else if op.Hts != nil {
 				must(fr.WriteSettings(http2.Setting{ID: http2.SettingInitialWindowSize, Val: 65535 + op.Val},
 					http2.Setting{ID: http2.SettingHeaderTableSize, Val: *op.Hts}))
 			} else {
